@@ -56,6 +56,31 @@ pub mod openssl {
             pub const X9_62_PRIME256V1: Nid = Nid { id: 415 };
             pub const SECP384R1: Nid = Nid { id: 715 };
             pub const SECP521R1: Nid = Nid { id: 716 };
+            // (further object identifiers of OpenSSL, by their number in obj_mac.h)
+            pub const COMMONNAME: Nid = Nid { id: 13 };
+            pub const COUNTRYNAME: Nid = Nid { id: 14 };
+            pub const LOCALITYNAME: Nid = Nid { id: 15 };
+            pub const STATEORPROVINCENAME: Nid = Nid { id: 16 };
+            pub const ORGANIZATIONNAME: Nid = Nid { id: 17 };
+            pub const ORGANIZATIONALUNITNAME: Nid = Nid { id: 18 };
+            pub const PKCS9_EMAILADDRESS: Nid = Nid { id: 48 };
+            pub const SUBJECT_ALT_NAME: Nid = Nid { id: 85 };
+            pub const GIVENNAME: Nid = Nid { id: 99 };
+            pub const SURNAME: Nid = Nid { id: 100 };
+            pub const INITIALS: Nid = Nid { id: 101 };
+            pub const SERIALNUMBER: Nid = Nid { id: 105 };
+            pub const TITLE: Nid = Nid { id: 106 };
+            pub const DESCRIPTION: Nid = Nid { id: 107 };
+            pub const NAME: Nid = Nid { id: 173 };
+            pub const DNQUALIFIER: Nid = Nid { id: 174 };
+            pub const DOMAINCOMPONENT: Nid = Nid { id: 391 };
+            pub const USERID: Nid = Nid { id: 458 };
+            pub const GENERATIONQUALIFIER: Nid = Nid { id: 509 };
+            pub const PSEUDONYM: Nid = Nid { id: 510 };
+            pub const STREETADDRESS: Nid = Nid { id: 660 };
+            pub const POSTALCODE: Nid = Nid { id: 661 };
+            pub const POSTALADDRESS: Nid = Nid { id: 861 };
+            pub const SECP256K1: Nid = Nid { id: 714 };
         }
         }
     }
